@@ -211,6 +211,92 @@ def initialization (ea ma : List Nat) : Except Err Circuit := do
       c'.add (initWrapperOp ai.2)) (Circuit.empty ma.length ea.length 1)
   ma.zipIdx.foldlM (fun c (tj : Nat × Nat) => c.add (finalMcrOp tj.2 tj.1)) c1
 
+/-! ## construction order of the deterministic solvers
+
+  `TimeReversedSolver.solve` builds its circuit backwards: every operation is spliced in *directly after the input
+  node* of its registers (`_add_one_qubit_gate`, `_add_one_emitter_cnot`, `_add_emitter_photon_cnot`,
+  `_add_measurement_cnot_and_reset`), photon by photon from the last to the first; for each photon: an optional
+  time-reversed measurement (a `Fixed` measure-and-reset targeting it), its one-qubit gate, emitter gates, and finally
+  its `Fixed` emission CNOT — after which nothing touches that photon any more.  `AlternateTargetSolver` takes such a
+  circuit and `add`s one-qubit gates on photons at the end.  Which gates are placed is decided by tableau arithmetic
+  that is not modelled here; the model is the *discipline*: a `BuildOp` is refused (`none`) when it would touch a
+  photon that has already been emitted (other than appending a one-qubit gate), emit a photon twice, etc. -/
+
+inductive BuildOp where
+  /-- `_add_one_qubit_gate`, next node is not a wrapper: a new wrapper directly after `<r>_in` -/
+  | frontGate (r : Reg) (gs : List G1)
+  /-- `_add_one_qubit_gate`, next node is a wrapper: `replace_op` with the combined Clifford -/
+  | replaceFront (r : Reg) (gs : List G1)
+  /-- `_add_one_qubit_gate`, the combination is the identity: `remove_op` of the wrapper after `<r>_in` -/
+  | removeFront (r : Reg)
+  /-- `_add_one_emitter_cnot(control, target)` -/
+  | emitterCnot (ctl tgt : Nat)
+  /-- `_add_emitter_photon_cnot(emitter, photon)`: the `Fixed` emission -/
+  | emission (e p : Nat)
+  /-- `_add_measurement_cnot_and_reset(emitter, photon)`: `Fixed` -/
+  | mcr (e p : Nat)
+  /-- `AlternateTargetSolver`: `circuit.add(<one-qubit gate on photon p>)` -/
+  | appendGate (p : Nat) (g : G1)
+  deriving DecidableEq, Repr, Inhabited
+
+structure BuildSt where
+  c : Circuit
+  /-- photons whose emission has been placed -/
+  emitted : List Nat
+
+def frontEdge (r : Reg) : Edge := ⟨r, 0⟩
+
+def BuildSt.step (s : BuildSt) (op : BuildOp) : Option BuildSt :=
+  let photonFree (r : Reg) : Bool := decide (r.ty = .p → r.idx ∉ s.emitted)
+  match op with
+  | .frontGate r gs =>
+    if s.c.validReg r ∧ r.ty ≠ .c ∧ photonFree r then
+      some { s with c := s.c.insertAt ⟨.wrapper gs, [r], [], false⟩ [frontEdge r] }
+    else none
+  | .replaceFront r gs =>
+    if s.c.validReg r ∧ r.ty ≠ .c ∧ photonFree r then
+      match s.c.wire r with
+      | n :: _ =>
+        match s.c.node n with
+        | some ⟨.wrapper _, [r'], [], _⟩ =>
+          if r' = r then some { s with c := s.c.setNode n (some ⟨.wrapper gs, [r], [], false⟩) } else none
+        | _ => none
+      | [] => none
+    else none
+  | .removeFront r =>
+    if s.c.validReg r ∧ r.ty ≠ .c ∧ photonFree r then
+      match s.c.wire r with
+      | n :: _ =>
+        match s.c.node n with
+        | some ⟨.wrapper _, _, _, _⟩ => some { s with c := s.c.removeOp n }
+        | _ => none
+      | [] => none
+    else none
+  | .emitterCnot ctl tgt =>
+    if ctl < s.c.ne ∧ tgt < s.c.ne ∧ ctl ≠ tgt then
+      some { s with c := s.c.insertAt ⟨.cnot, [⟨.e, ctl⟩, ⟨.e, tgt⟩], [], false⟩ [frontEdge ⟨.e, ctl⟩, frontEdge ⟨.e, tgt⟩] }
+    else none
+  | .emission e p =>
+    if e < s.c.ne ∧ p < s.c.np ∧ p ∉ s.emitted then
+      some ⟨s.c.insertAt ⟨.cnot, [⟨.e, e⟩, ⟨.p, p⟩], [], true⟩ [frontEdge ⟨.e, e⟩, frontEdge ⟨.p, p⟩], p :: s.emitted⟩
+    else none
+  | .mcr e p =>
+    if e < s.c.ne ∧ p < s.c.np ∧ p ∉ s.emitted ∧ 0 < s.c.nc then
+      some { s with c := s.c.insertAt ⟨.mcr, [⟨.e, e⟩, ⟨.p, p⟩], [0], true⟩ [frontEdge ⟨.e, e⟩, frontEdge ⟨.p, p⟩] }
+    else none
+  | .appendGate p g =>
+    if p < s.c.np ∧ p ∈ s.emitted then some { s with c := s.c.addCore ⟨.base g, [⟨.p, p⟩], [], false⟩ } else none
+
+def BuildSt.run (s : BuildSt) : List BuildOp → Option BuildSt
+  | [] => some s
+  | op :: ops => (s.step op).bind fun s' => s'.run ops
+
+/-- the circuit a deterministic solver returns after the construction history `ops`: every photon must have been emitted -/
+def solverCircuit (ne np : Nat) (ops : List BuildOp) : Option Circuit :=
+  match (BuildSt.mk (Circuit.empty ne np 1) []).run ops with
+  | some s => if (List.range np).all (fun p => decide (p ∈ s.emitted)) then some s.c else none
+  | none => none
+
 /-! ## the invariant -/
 
 /-- node `n` is the emission of photon `j`: a `Fixed` CNOT from an emitter onto `p_j` -/
